@@ -229,9 +229,9 @@ func cases(thorough bool) []Case {
 							continue
 						}
 						out = append(out, Case{Carrier: x.carrier, Sec: x.sec, Closer: closer, N: n, Pos: pos, Other: other})
-						quiets := []int{20}
+						quiets := []int{20, 45} // 45 s: past every handshake-time deadline (30 s) a carrier may still have armed
 						if thorough {
-							quiets = []int{20, 45, 300}
+							quiets = []int{20, 45, 300, 3700}
 						}
 						for _, q := range quiets {
 							if other == "none" || thorough {
